@@ -52,8 +52,11 @@ func messageOfHeader(v ssa.Value) ssa.Value {
 }
 
 func init() {
-	props["C02"] = c02
-	floors["C02"] = map[string]int{"C02.R1": 14, "C02.R2": 4, "C02.R3": 9, "C02.R4": 6, "C02.R5": 4, "C02.R6": 12}
+	props["C02"] = func(r *Report) {
+		c02(r)
+		r.Guard("C02.R7", "every lock taken is released on every exit: the context table and session locks", func() { lockPairRule(r, "") })
+	}
+	floors["C02"] = map[string]int{"C02.R1": 14, "C02.R2": 4, "C02.R3": 9, "C02.R4": 6, "C02.R5": 4, "C02.R6": 12, "C02.R7": 1}
 }
 
 func c02(r *Report) {
